@@ -84,6 +84,16 @@ def gen_vector(chk, step):
             cases.append(o2)
         # add/remove ping-pong exactly at the boundary
         cases.append(base + [("r", n - 1), ("a", val()), ("a", val()), ("r", 0), ("a", val()), ("s",), ("g", n)] if n else base + [("r", 0)])
+    # used as a queue around the capacity of the store: fill to (just below) a growth boundary, take
+    # h items from the head, add until the store has to make room, then look at every position
+    for n in (step - 1, step, 2 * step):
+        for h in ((1, 3) if chk.tier == "quick" else (1, 2, 3, step // 2, step - 1)):
+            nxt[0] = 0
+            ops = [("a", val()) for _ in range(n)] + [("r", 0)] * h + [("a", val()) for _ in range(h + 2)]
+            size = n + 2
+            ops += [("s",)] + [("g", i) for i in sorted({0, 1, size // 2, size - 3, size - 2, size - 1, size})]
+            ops += [("r", 0), ("g", 0), ("g", size - 2), ("s",)]
+            cases.append(ops)
     # random histories
     for _ in range(60 if chk.tier == "quick" else 3000):
         nxt[0] = 0
